@@ -98,6 +98,12 @@ class SimConnection(sqlite3.Connection):
         word = sql.split(None, 1)[0].upper() if sql else ""
         while True:
             sim.seam(kind, word)
+            db = SimDB.current
+            if db is not None and db.fault is not None and db.fault(sim.cur, kind, word):
+                # the statement / commit fails without being executed (I/O error, lost
+                # connection): the caller's transaction must be rolled back as a whole
+                sim.count("sql.io_error@" + ("commit" if kind == "sql.commit" else "exec"))
+                raise sqlite3.OperationalError("disk I/O error (simulated)")
             try:
                 r = fn()
                 sim.count("sql." + (word if kind == "sql.exec" else "COMMIT"))
@@ -143,6 +149,8 @@ class SimDB:
         self.busy_timeout = float(cfg.get("busy_timeout", 60.0))
         self.connections: list[SimConnection] = []
         self.storages: list[Any] = []
+        # fault(task, "sql.exec"|"sql.commit", first word of the statement) -> bool
+        self.fault: Any = None
         _counter += 1
         # one fixed path per interpreter: RDBStorage objects (engines with their compiled
         # statement caches) are reused across runs, the file is replaced by the template
